@@ -264,6 +264,17 @@ def r3_inclusion(a, tier):
         if not ok:
             rep.fail(f'tatsu.util.tty.{name}', f'not-stripped:{name}', f'{name} = {rx[name]!r} does not match the emitted sequence {w!r}: '
                      f'descape()/visual_len() leave it in the text', '')
+    # ... and nothing else is: every string the stripping regex matches begins with ESC (the property is about texts free of ESC; a pattern
+    # that also matches, say, the C1 code points U+0080..U+009F removes characters of the user's text)
+    for name in ('ANSI_RE',):
+        try:
+            ok, w = included(compile_nfa(rx[name]), compile_nfa(r'\x1b(?:.|\n)*'))
+        except RxUnsupported as e:
+            raise AnalysisError(f'cannot decide {name} (only escapes): {e}') from e
+        rep.add({'stripping_regex': name, 'every_match_begins_with_ESC': ok, 'counterexample': w})
+        if not ok:
+            rep.fail(f'tatsu.util.tty.{name}', f'strips-text:{name}', f'{name} = {rx[name]!r} matches {w!r}, which contains no ESC: descape() / visual_len() / from_raw remove '
+                     f'characters of the text itself', '')
     return rep
 
 
